@@ -5,6 +5,7 @@ import (
 	"go/constant"
 	"go/token"
 	"go/types"
+	"regexp"
 	"sort"
 	"strings"
 
@@ -28,13 +29,9 @@ import (
 //   - the invoice's final CLTV is read as DecodedBolt11.MinFinalCltvExpiry
 //     (CLN) resp. (*lnrpc.PayReq).GetCltvExpiry (LND).
 const (
-	c04Policy      = "func:(*swap.SwapData).getTimelockPolicy"
 	c04GetChain    = "func:(*swap.SwapData).GetChain"
 	c04GetVersion  = "func:(*swap.SwapData).GetProtocolVersion"
-	c04Window      = "func:swap.checkPaymentWindow"
-	c04Invoice     = "func:swap.validateClaimInvoice"
 	c04ValidateTot = "func:swap.ValidateTotalCLTVDelta"
-	c04PolicyTerm  = "call:" + c04Policy + "#0"
 	c04Liquid      = "lbtc"
 	c04Bitcoin     = "btc"
 
@@ -55,7 +52,7 @@ var c04FinalCLTVTerms = []string{"field:DecodedBolt11.MinFinalCltvExpiry", "lnrp
 func init() {
 	Register(&Prop{
 		ID:   "C04",
-		Expl: "Decides on the SSA form of the pinned tree, for ALL anchors, heights, invoices and both Lightning back-ends at once: (R1) by constant evaluation of every successful return of getTimelockPolicy, that a Liquid row allows new claim payments only under the guard version==7 and then has window in [1,60], final CLTV <= 29, total CLTV limit in [1,32] and CSV >= 10080, and that every other Liquid row forbids new payments; (R2) that in every function that starts a claim payment, every CFG path from the entry AND every path from one payment attempt to the next passes, on the Liquid branch, the passing edge of a checkPaymentWindow call whose height argument is the result of a TxWatcher.GetBlockHeight call executed in that same attempt; (R3) that every claim-payment call is dominated by `policy.AllowNewClaimPayment == true` of an error-checked getTimelockPolicy result (the legacy edge cannot reach a payment); (R4) that checkPaymentWindow returns nil only under anchor-set, current >= start and current < start+window with the sum formed in 64 bits; (R5) that validateClaimInvoice returns nil only for 0 <= final CLTV <= policy.InvoiceFinalCLTV and that every registration of the confirmation watch is preceded, on the Liquid branch, by its passing edge on the decoded claim invoice, and pay states are entered only from such states; (R6) that the limit handed to RebalancePayment is policy.MaxTotalCLTVDelta, is forwarded unchanged by both back-ends into a builder whose successful return requires ValidateTotalCLTVDelta(final+k, limit) (k>=1) to pass when limit != 0, that the CLTV value placed in the outgoing route/request on that path is the validated one (CLN) or at most limit+1 (LND), and that ValidateTotalCLTVDelta accepts only limit==0 or required<=limit.",
+		Expl: "Decides on the SSA form of the pinned tree, for ALL anchors, heights, invoices and both Lightning back-ends at once: (R1) by constant evaluation of every successful return of getTimelockPolicy, that a Liquid row allows new claim payments only under the guard version==7 and then has window in [1,60], final CLTV <= 29, total CLTV limit in [1,32] and CSV >= 10080, and that every other Liquid row forbids new payments; (R2) that in every function that starts a claim payment, every CFG path from the entry AND every path from one payment attempt to the next passes, on the Liquid branch, the passing edge of a checkPaymentWindow call whose height argument is the result of a TxWatcher.GetBlockHeight call executed in that same attempt; (R3) that every claim-payment call is dominated by `policy.AllowNewClaimPayment == true` of an error-checked getTimelockPolicy result (the legacy edge cannot reach a payment); (R4) that checkPaymentWindow returns nil only under anchor-set, current >= start and current < start+window with the sum formed in 64 bits; (R5) that validateClaimInvoice returns nil only for 0 <= final CLTV <= policy.InvoiceFinalCLTV and that every registration of the confirmation watch is preceded, on the Liquid branch, by its passing edge on the decoded claim invoice, and pay states are entered only from such states; (R6) that the limit handed to RebalancePayment is policy.MaxTotalCLTVDelta, is forwarded unchanged by both back-ends into a builder whose successful return requires ValidateTotalCLTVDelta(final+k, limit) (k>=1) to pass when limit != 0, that the CLTV value placed in the outgoing route/request on that path is the validated one (CLN) or at most limit+1 (LND), and that ValidateTotalCLTVDelta accepts only limit==0 or required<=limit (the same comparison written inline in a builder is accepted in its place). The policy table, the window predicate and the invoice predicate are found by their types and by what they compare (not by their unexported names); predicate helpers with one bool result and one return are instantiated with their arguments, pure pass-through wrappers of the two predicates count as the predicate, payment / registration calls inside small helpers are judged at the helper's call site, and a CLTV value stored by a helper is followed to the argument that carries it.",
 		NotD: "Run-time heights and clocks (block intervals, whether 32 Bitcoin blocks really take less than 10021 Liquid blocks); that GetChain/getTimelockPolicy give the same answer at each call within one action; the semantics of lnd's cltv_limit and CLN's route delay inside the nodes; truncation in the uint32/int32 conversions of the builders beyond the guards present; the watcher's own deadline (C20).",
 		Run:  runC04,
 	})
@@ -76,6 +73,23 @@ func runC04(c *an.Check) {
 	}
 	c04R1(c)
 	shape := c04R4(c)
+	// pure pass-through wrappers of a window predicate count as the predicate
+	for g, m := range c04PassThrough(c.W, c04X.isWindow, func(f *ssa.Function) []int {
+		sh := shape[f]
+		return []int{sh.heightIdx, sh.swapIdx, sh.polIdx}
+	}) {
+		in := c04CallsTo(g, c04X.isWindow)[0].Common().StaticCallee()
+		sh := shape[in]
+		if !sh.ok {
+			continue
+		}
+		ws := c04WindowShape{ok: true, heightIdx: m[sh.heightIdx], swapIdx: m[sh.swapIdx], polIdx: -1}
+		if sh.polIdx >= 0 {
+			ws.polIdx = m[sh.polIdx]
+		}
+		shape[g] = ws
+		c04X.windowFns = append(c04X.windowFns, g)
+	}
 	c04R2R3(c, shape)
 	c04R5(c)
 	c04R6(c)
@@ -86,15 +100,11 @@ func runC04(c *an.Check) {
 func c04Anchors(c *an.Check) bool {
 	w := c.W
 	ok := true
-	for _, n := range []string{"(*SwapData).getTimelockPolicy", "(*SwapData).GetChain", "(*SwapData).GetProtocolVersion", "checkPaymentWindow", "validateClaimInvoice", "ValidateTotalCLTVDelta"} {
+	for _, n := range []string{"(*SwapData).GetChain", "(*SwapData).GetProtocolVersion", "ValidateTotalCLTVDelta"} {
 		if w.Func("swap", n) == nil {
 			c.Anchor("swap.%s does not resolve", n)
 			ok = false
 		}
-	}
-	if w.Named("swap", "timelockPolicy") == nil {
-		c.Anchor("type swap.timelockPolicy does not resolve")
-		ok = false
 	}
 	if !ok {
 		return false
@@ -121,7 +131,386 @@ func c04Anchors(c *an.Check) bool {
 			return false
 		}
 	}
+	return c04Resolve(c)
+}
+
+// c04Ctx holds what is resolved structurally at the start of a run (no
+// function-name anchors for unexported helpers):
+//
+//   - the policy table = the production function of package swap whose results
+//     are (timelockPolicy, error);
+//   - window predicates = functions of package swap returning one error that
+//     compare SwapData.StartingBlockHeight with timelockPolicy.PaymentWindow;
+//   - invoice predicates = functions of package swap returning one error that
+//     compare something with timelockPolicy.InvoiceFinalCLTV.
+type c04Ctx struct {
+	pol        *types.Named // the policy struct (found by its fields)
+	polName    string       // its type name, as it appears in field terms
+	services   string       // CallInfo.Name of the chain-service selector (results include TxWatcher and Validator)
+	policyFn   *ssa.Function
+	policyName string // CallInfo.Name of the policy function
+	policyTerm string // term of its first result
+	windowFns  []*ssa.Function
+	invoiceFns []*ssa.Function
+	facts      map[*ssa.Function][]an.Fact
+}
+
+var c04X *c04Ctx
+
+func (x *c04Ctx) isWindow(fn *ssa.Function) bool {
+	for _, f := range x.windowFns {
+		if f == fn {
+			return true
+		}
+	}
+	return false
+}
+
+func (x *c04Ctx) isInvoice(fn *ssa.Function) bool {
+	for _, f := range x.invoiceFns {
+		if f == fn {
+			return true
+		}
+	}
+	return false
+}
+
+// c04CallsTo lists the calls in fn whose static callee satisfies pred.
+func c04CallsTo(fn *ssa.Function, pred func(*ssa.Function) bool) []ssa.CallInstruction {
+	var out []ssa.CallInstruction
+	for _, call := range an.Calls(fn) {
+		if g := call.Common().StaticCallee(); g != nil && !call.Common().IsInvoke() && pred(g) {
+			out = append(out, call)
+		}
+	}
+	return out
+}
+
+// c04PolicyType finds the policy struct of package swap by its field set (not
+// by its unexported name).
+func c04PolicyType(w *an.World) *types.Named {
+	pkg := w.ByRel["swap"]
+	if pkg == nil {
+		return nil
+	}
+	var found *types.Named
+	sc := pkg.Types.Scope()
+	for _, name := range sc.Names() {
+		tn, ok := sc.Lookup(name).(*types.TypeName)
+		if !ok || tn.IsAlias() {
+			continue
+		}
+		n, ok := tn.Type().(*types.Named)
+		if !ok {
+			continue
+		}
+		st, ok := n.Underlying().(*types.Struct)
+		if !ok {
+			continue
+		}
+		need := map[string]bool{"CSV": true, "PaymentWindow": true, "InvoiceFinalCLTV": true, "MaxTotalCLTVDelta": true, "AllowNewClaimPayment": true}
+		for i := 0; i < st.NumFields(); i++ {
+			delete(need, st.Field(i).Name())
+		}
+		if len(need) == 0 {
+			if found != nil {
+				return nil
+			}
+			found = n
+		}
+	}
+	return found
+}
+
+func c04Resolve(c *an.Check) bool {
+	w := c.W
+	x := &c04Ctx{facts: map[*ssa.Function][]an.Fact{}}
+	c04X = x
+	pol := c04PolicyType(w)
+	if pol == nil {
+		c.Anchor("package swap has no (single) struct type with the fields CSV, PaymentWindow, InvoiceFinalCLTV, MaxTotalCLTVDelta, AllowNewClaimPayment: the timelock policy type is not found")
+		return false
+	}
+	x.pol, x.polName = pol, pol.Obj().Name()
+	onlyError := func(fn *ssa.Function) bool {
+		r := fn.Signature.Results()
+		return r.Len() == 1 && an.IsErrorType(r.At(0).Type())
+	}
+	for _, fn := range prodFuncs(w) {
+		if w.FnRel(fn) != "swap" || fn.Parent() != nil {
+			continue
+		}
+		r := fn.Signature.Results()
+		if r.Len() >= 3 {
+			hasW, hasV := false, false
+			for i := 0; i < r.Len(); i++ {
+				if n := an.NamedOf(r.At(i).Type()); n != nil && n.Obj().Pkg() == fn.Pkg.Pkg {
+					switch n.Obj().Name() {
+					case "TxWatcher":
+						hasW = true
+					case "Validator":
+						hasV = true
+					}
+				}
+			}
+			if hasW && hasV && fn.Signature.Recv() != nil {
+				x.services = "func:" + w.FuncName(fn)
+			}
+		}
+		if r.Len() == 2 && an.NamedOf(r.At(0).Type()) == pol && an.IsErrorType(r.At(1).Type()) {
+			if _, isPtr := r.At(0).Type().(*types.Pointer); !isPtr {
+				if x.policyFn != nil {
+					c.Anchor("two functions of package swap return (timelockPolicy, error): %s and %s", w.FuncName(x.policyFn), w.FuncName(fn))
+					return false
+				}
+				x.policyFn = fn
+			}
+		}
+		if !onlyError(fn) {
+			continue
+		}
+		isW, isI := false, false
+		for _, f := range w.Facts(fn) {
+			if f.NonNum || f.Terms == nil {
+				continue
+			}
+			hasStart, hasWin, hasInv := false, false, false
+			for k := range f.Terms {
+				switch {
+				case k == "field:SwapData.StartingBlockHeight":
+					hasStart = true
+				case strings.HasSuffix(k, x.polName+".PaymentWindow"):
+					hasWin = true
+				case strings.HasSuffix(k, x.polName+".InvoiceFinalCLTV"):
+					hasInv = true
+				}
+			}
+			if hasStart && hasWin {
+				isW = true
+			}
+			if hasInv {
+				isI = true
+			}
+		}
+		if isW {
+			x.windowFns = append(x.windowFns, fn)
+		}
+		if isI {
+			x.invoiceFns = append(x.invoiceFns, fn)
+		}
+	}
+	if x.policyFn == nil {
+		c.Anchor("no function of package swap returns (timelockPolicy, error): the policy table is not found")
+		return false
+	}
+	x.policyName = "func:" + w.FuncName(x.policyFn)
+	x.policyTerm = "call:" + x.policyName + "#0"
+	if len(x.windowFns) == 0 {
+		c.Anchor("no function of package swap returning an error compares SwapData.StartingBlockHeight with timelockPolicy.PaymentWindow: the payment-window predicate is not found")
+		return false
+	}
+	if len(x.invoiceFns) == 0 {
+		c.Anchor("no function of package swap returning an error compares a value with timelockPolicy.InvoiceFinalCLTV: the invoice predicate is not found")
+		return false
+	}
 	return true
+}
+
+// ---- facts with predicate helpers looked into -------------------------------------------
+
+var c04ParamRe = regexp.MustCompile(`param#(\d+)`)
+
+// c04Facts are the engine's facts of fn plus, for every branch on a call of an
+// in-module predicate helper (one bool result, one return), the facts of the
+// helper's returned condition with the helper's parameters renamed to the
+// call's arguments.
+func c04Facts(w *an.World, fn *ssa.Function) []an.Fact {
+	if c04X != nil {
+		if fs, ok := c04X.facts[fn]; ok {
+			return fs
+		}
+	}
+	base := w.Facts(fn)
+	out := append([]an.Fact{}, base...)
+	for _, f := range base {
+		if f.Rel != "true" && f.Rel != "false" {
+			continue
+		}
+		call, ok := f.Cond.(*ssa.Call)
+		if !ok {
+			continue
+		}
+		out = append(out, c04HelperFacts(w, call, f.Rel == "true", f.Edge, 0)...)
+	}
+	if c04X != nil {
+		c04X.facts[fn] = out
+	}
+	return out
+}
+
+func c04HelperFacts(w *an.World, call *ssa.Call, truth bool, edge an.Edge, depth int) []an.Fact {
+	g := call.Call.StaticCallee()
+	if g == nil || call.Call.IsInvoke() || depth > 3 || !w.InModule(g) || g.Blocks == nil || len(g.Params) != len(call.Call.Args) {
+		return nil
+	}
+	res := g.Signature.Results()
+	if res.Len() != 1 {
+		return nil
+	}
+	if bt, ok := res.At(0).Type().Underlying().(*types.Basic); !ok || bt.Info()&types.IsBoolean == 0 {
+		return nil
+	}
+	rets := an.Returns(g)
+	if len(rets) != 1 {
+		return nil
+	}
+	rename := func(t string) string {
+		return c04ParamRe.ReplaceAllStringFunc(t, func(m string) string {
+			i := 0
+			fmt.Sscanf(m, "param#%d", &i)
+			if i < len(call.Call.Args) {
+				return w.Term(call.Call.Args[i])
+			}
+			return m
+		})
+	}
+	var out []an.Fact
+	var walk func(cond ssa.Value, truth bool, d int)
+	walk = func(cond ssa.Value, truth bool, d int) {
+		if d > 6 {
+			return
+		}
+		switch x := cond.(type) {
+		case *ssa.UnOp:
+			if x.Op == token.NOT {
+				walk(x.X, !truth, d+1)
+				return
+			}
+		case *ssa.Phi:
+			if ops, isAnd, ok := an.PhiConjuncts(x); ok && isAnd == truth {
+				for _, op := range ops {
+					walk(op, truth, d+1)
+				}
+				for i, in := range x.Edges {
+					if _, isC := in.(*ssa.Const); !isC {
+						continue
+					}
+					pred := x.Block().Preds[i]
+					if len(pred.Instrs) == 0 {
+						continue
+					}
+					if pi, ok := pred.Instrs[len(pred.Instrs)-1].(*ssa.If); ok && len(pred.Succs) == 2 {
+						if (isAnd && pred.Succs[1] == x.Block() && pred.Succs[0] != x.Block()) || (!isAnd && pred.Succs[0] == x.Block() && pred.Succs[1] != x.Block()) {
+							walk(pi.Cond, truth, d+1)
+						}
+					}
+				}
+			}
+			return
+		case *ssa.Call:
+			for _, f := range c04HelperFacts(w, x, truth, edge, depth+1) {
+				f.L, f.R, f.Atom = rename(f.L), rename(f.R), rename(f.Atom)
+				if f.Terms != nil {
+					nt := map[string]int64{}
+					for k, v := range f.Terms {
+						nt[rename(k)] += v
+					}
+					f.Terms = nt
+				}
+				out = append(out, f)
+			}
+		case *ssa.BinOp:
+			op := x.Op
+			switch op {
+			case token.EQL, token.NEQ, token.LSS, token.LEQ, token.GTR, token.GEQ:
+			default:
+				return
+			}
+			if !truth {
+				op = map[token.Token]token.Token{token.EQL: token.NEQ, token.NEQ: token.EQL, token.LSS: token.GEQ, token.LEQ: token.GTR, token.GTR: token.LEQ, token.GEQ: token.LSS}[op]
+			}
+			f := an.Fact{Edge: edge, Cond: x, LV: x.X, RV: x.Y}
+			if d := w.LinearDiff(x.X, x.Y); d != nil {
+				f.Terms = map[string]int64{}
+				for k, v := range d.Terms {
+					f.Terms[rename(k)] += v
+				}
+				f.Const = d.Const
+				flip := op == token.LSS || op == token.LEQ
+				switch op {
+				case token.LSS:
+					op = token.GTR
+				case token.LEQ:
+					op = token.GEQ
+				case token.EQL, token.NEQ:
+					var ks []string
+					for k, v := range f.Terms {
+						if v != 0 {
+							ks = append(ks, k)
+						}
+					}
+					sort.Strings(ks)
+					if (len(ks) > 0 && f.Terms[ks[0]] < 0) || (len(ks) == 0 && f.Const < 0) {
+						flip = true
+					}
+				}
+				if flip {
+					for k := range f.Terms {
+						f.Terms[k] = -f.Terms[k]
+					}
+					f.Const = -f.Const
+				}
+				for k, v := range f.Terms {
+					if v == 0 {
+						delete(f.Terms, k)
+					}
+				}
+				f.Rel = op.String()
+				out = append(out, f)
+				return
+			}
+			f.NonNum = true
+			l, r := rename(w.Term(x.X)), rename(w.Term(x.Y))
+			switch op {
+			case token.EQL, token.NEQ:
+				if l > r {
+					l, r = r, l
+				}
+			case token.LSS:
+				l, r, op = r, l, token.GTR
+			case token.LEQ:
+				l, r, op = r, l, token.GEQ
+			}
+			f.L, f.R, f.Rel = l, r, op.String()
+			out = append(out, f)
+			return
+		}
+		// a plain boolean value
+		f := an.Fact{Edge: edge, Cond: cond, Atom: rename(w.Term(cond)), Rel: "false"}
+		if truth {
+			f.Rel = "true"
+		}
+		out = append(out, f)
+	}
+	walk(rets[0].Results[0], truth, 0)
+	return out
+}
+
+func c04FactsDominatingBlock(w *an.World, b *ssa.BasicBlock) []an.Fact {
+	var out []an.Fact
+	for _, f := range c04Facts(w, b.Parent()) {
+		if f.Edge.From == b {
+			continue
+		}
+		if an.EdgeDominates(f.Edge, b) {
+			out = append(out, f)
+		}
+	}
+	return out
+}
+
+func c04FactsDominating(w *an.World, in ssa.Instruction) []an.Fact {
+	return c04FactsDominatingBlock(w, in.Block())
 }
 
 // ---- shared helpers ---------------------------------------------------------------
@@ -154,7 +543,7 @@ func c04ChainFact(f an.Fact) int {
 // a Liquid swap.
 func c04NonLiquidEdges(w *an.World, fn *ssa.Function) []an.Edge {
 	var out []an.Edge
-	for _, f := range w.Facts(fn) {
+	for _, f := range c04Facts(w, fn) {
 		if c04ChainFact(f) > 0 {
 			out = append(out, f.Edge)
 		}
@@ -225,14 +614,74 @@ func c04Implies(f an.Fact, terms map[string]int64, wantC int64, wantRel string) 
 
 // c04WrappedIn names an in-module helper called directly by fn (other than
 // target itself) whose effect summary contains a call of target.
-func c04WrappedIn(w *an.World, fn *ssa.Function, target string) string {
+func c04WrappedIn(w *an.World, fn *ssa.Function, target func(*ssa.Function) bool) string {
 	for _, call := range an.Calls(fn) {
 		ci := w.Info(call)
-		if ci.Static == nil || ci.Name == target || !w.InModule(ci.Static) || ci.Static.Blocks == nil {
+		if ci.Static == nil || target(ci.Static) || !w.InModule(ci.Static) || ci.Static.Blocks == nil {
 			continue
 		}
-		if w.Summary(ci.Static).HasEffect(target) {
-			return w.FuncName(ci.Static)
+		for _, ef := range w.Summary(ci.Static).Effects {
+			if ef.Info.Static != nil && target(ef.Info.Static) {
+				return w.FuncName(ci.Static)
+			}
+		}
+	}
+	return ""
+}
+
+// c04ComparesVia names an in-module helper called by fn that has a fact about a
+// term with the given suffix (a comparison moved out of fn).
+func c04ComparesVia(w *an.World, fn *ssa.Function, suffix string) string {
+	for _, call := range an.Calls(fn) {
+		g := call.Common().StaticCallee()
+		if g == nil || call.Common().IsInvoke() || !w.InModule(g) || g.Blocks == nil {
+			continue
+		}
+		for _, a := range call.Common().Args {
+			if strings.HasSuffix(w.Term(a), suffix) {
+				return w.FuncName(g)
+			}
+		}
+	}
+	return ""
+}
+
+// c04OpaquePreds names the in-module bool helpers fn branches on that could not
+// be looked into (more than one return, etc.): a guard may hide in them.
+func c04OpaquePreds(w *an.World, fn *ssa.Function) []string {
+	var out []string
+	for _, f := range w.Facts(fn) {
+		if f.Rel != "true" {
+			continue
+		}
+		call, ok := f.Cond.(*ssa.Call)
+		if !ok {
+			continue
+		}
+		g := call.Call.StaticCallee()
+		if g == nil || call.Call.IsInvoke() || !w.InModule(g) || g.Blocks == nil {
+			continue
+		}
+		if len(c04HelperFacts(w, call, true, f.Edge, 0)) == 0 {
+			out = append(out, w.FuncName(g))
+		}
+	}
+	return out
+}
+
+// c04HandsParamsOn names an in-module helper that fn passes one of its own
+// parameters (or a field of one) to: a condition may have moved there.
+func c04HandsParamsOn(w *an.World, fn *ssa.Function) string {
+	for _, call := range an.Calls(fn) {
+		g := call.Common().StaticCallee()
+		if g == nil || call.Common().IsInvoke() || !w.InModule(g) || g.Blocks == nil {
+			continue
+		}
+		for _, a := range call.Common().Args {
+			t := w.Term(a)
+			if strings.HasPrefix(t, "param#") || strings.HasPrefix(t, "field:") {
+				return w.FuncName(g)
+			}
 		}
 	}
 	return ""
@@ -394,7 +843,7 @@ func c04IsInt(t types.Type) bool {
 // c04PathFacts are the facts known on the CFG edge pred -> succ: everything
 // that dominates pred plus the fact of the edge itself.
 func c04PathFacts(w *an.World, pred, succ *ssa.BasicBlock) []an.Fact {
-	out := w.FactsDominatingBlock(pred)
+	out := c04FactsDominatingBlock(w, pred)
 	if len(pred.Instrs) > 0 {
 		if i, ok := pred.Instrs[len(pred.Instrs)-1].(*ssa.If); ok && len(pred.Succs) == 2 && pred.Succs[0] != pred.Succs[1] {
 			t, f := w.FactsOfIf(i)
@@ -448,6 +897,53 @@ func c04ErrReturnKind(w *an.World, r *ssa.Return) string {
 	return "?"
 }
 
+// c04ConstFold folds an integer expression of constants (+ - * / % << >>,
+// conversions) to its value.
+func c04ConstFold(v ssa.Value) (int64, bool) {
+	if i, ok := an.ConstInt(v); ok {
+		return i, true
+	}
+	switch x := v.(type) {
+	case *ssa.Convert:
+		if c04IsInt(x.Type()) && c04IsInt(x.X.Type()) {
+			return c04ConstFold(x.X)
+		}
+	case *ssa.ChangeType:
+		return c04ConstFold(x.X)
+	case *ssa.BinOp:
+		a, aok := c04ConstFold(x.X)
+		b, bok := c04ConstFold(x.Y)
+		if !aok || !bok {
+			return 0, false
+		}
+		switch x.Op {
+		case token.ADD:
+			return a + b, true
+		case token.SUB:
+			return a - b, true
+		case token.MUL:
+			return a * b, true
+		case token.QUO:
+			if a >= 0 && b > 0 {
+				return a / b, true
+			}
+		case token.REM:
+			if a >= 0 && b > 0 {
+				return a % b, true
+			}
+		case token.SHR:
+			if a >= 0 && b >= 0 && b < 63 {
+				return a >> uint(b), true
+			}
+		case token.SHL:
+			if a >= 0 && b >= 0 && b < 31 && a < 1<<31 {
+				return a << uint(b), true
+			}
+		}
+	}
+	return 0, false
+}
+
 // ---- R1: the policy table ----------------------------------------------------------
 
 type c04Row struct {
@@ -457,12 +953,14 @@ type c04Row struct {
 	vals    map[string]int64
 	allow   bool
 	known   bool // all fields constant
+	// some dominating condition talks about the protocol version
+	verMention bool
 }
 
 // c04PolicyRows decodes every successful return of getTimelockPolicy.
 func c04PolicyRows(c *an.Check, rule string) []c04Row {
 	w := c.W
-	fn := w.Func("swap", "(*SwapData).getTimelockPolicy")
+	fn := c04X.policyFn
 	var rows []c04Row
 	for _, r := range an.Returns(fn) {
 		kind := c04ErrReturnKind(w, r)
@@ -474,7 +972,15 @@ func c04PolicyRows(c *an.Check, rule string) []c04Row {
 			c.Unknown(rule, "getTimelockPolicy return", w.Pos(r.Pos()), "cannot tell whether this return reports an error; unsupported shape")
 			continue
 		}
-		for _, f := range w.FactsDominatingBlock(r.Block()) {
+		for _, f := range c04FactsDominatingBlock(w, r.Block()) {
+			if strings.Contains(f.Atom+f.L+f.R, c04GetVersion) {
+				row.verMention = true
+			}
+			for k := range f.Terms {
+				if strings.Contains(k, c04GetVersion) {
+					row.verMention = true
+				}
+			}
 			if f.NonNum && f.Rel == "==" {
 				for _, ch := range []string{c04Liquid, c04Bitcoin} {
 					if (strings.HasSuffix(f.L, "call:"+c04GetChain) && f.R == `"`+ch+`"`) || (strings.HasSuffix(f.R, "call:"+c04GetChain) && f.L == `"`+ch+`"`) {
@@ -517,7 +1023,7 @@ func c04PolicyRows(c *an.Check, rule string) []c04Row {
 					}
 					continue
 				}
-				if n, ok := an.ConstInt(fv); ok {
+				if n, ok := c04ConstFold(fv); ok {
 					row.vals[name] = n
 					continue
 				}
@@ -550,7 +1056,7 @@ func (r c04Row) key() string {
 func c04R1(c *an.Check) {
 	w := c.W
 	rows := c04PolicyRows(c, "C04.R1")
-	st, _ := w.Named("swap", "timelockPolicy").Underlying().(*types.Struct)
+	st, _ := c04X.pol.Underlying().(*types.Struct)
 	need := map[string]bool{"CSV": false, "PaymentWindow": false, "InvoiceFinalCLTV": false, "MaxTotalCLTVDelta": false, "AllowNewClaimPayment": false}
 	if st != nil {
 		for i := 0; i < st.NumFields(); i++ {
@@ -583,6 +1089,10 @@ func c04R1(c *an.Check) {
 		}
 		nAllow++
 		var bad []string
+		if r.version < 0 && r.verMention {
+			c.Unknown("C04.R1", r.key(), pos, "a Liquid row that allows new claim payments is conditional on the protocol version, but not recognisably on version == 7 ("+desc+")")
+			continue
+		}
 		if r.version != c04LiquidProto {
 			bad = append(bad, fmt.Sprintf("new claim payments are allowed for a Liquid swap that is not guarded by version == %d", c04LiquidProto))
 		}
@@ -612,17 +1122,25 @@ type c04WindowShape struct {
 	heightIdx, swapIdx, polIdx int
 }
 
-func c04R4(c *an.Check) (c04Shape c04WindowShape) {
+func c04R4(c *an.Check) map[*ssa.Function]c04WindowShape {
+	out := map[*ssa.Function]c04WindowShape{}
+	for _, fn := range c04X.windowFns {
+		out[fn] = c04R4One(c, fn)
+	}
+	return out
+}
+
+func c04R4One(c *an.Check, fn *ssa.Function) (c04Shape c04WindowShape) {
 	w := c.W
 	c04Shape = c04WindowShape{heightIdx: -1, swapIdx: -1, polIdx: -1}
-	fn := w.Func("swap", "checkPaymentWindow")
+	fname := w.FuncName(fn)
 	pos := w.Pos(fn.Pos())
 	// parameters by type
 	for i, p := range fn.Params {
 		switch n := an.NamedOf(p.Type()); {
 		case n != nil && n.Obj().Name() == "SwapData":
 			c04Shape.swapIdx = i
-		case n != nil && n.Obj().Name() == "timelockPolicy":
+		case n != nil && n == c04X.pol:
 			c04Shape.polIdx = i
 		}
 	}
@@ -635,7 +1153,7 @@ func c04R4(c *an.Check) (c04Shape c04WindowShape) {
 	}
 	if c04Shape.swapIdx < 0 || nInt != 1 {
 		c04Shape.heightIdx = -1
-		c.Unknown("C04.R4", "checkPaymentWindow", pos, "expected exactly one *SwapData and one integer (height) parameter: unsupported signature")
+		c.Unknown("C04.R4", fname, pos, "expected exactly one *SwapData and one integer (height) parameter: unsupported signature")
 		return c04Shape
 	}
 	c04Shape.ok = true
@@ -646,11 +1164,11 @@ func c04R4(c *an.Check) (c04Shape c04WindowShape) {
 		case "err":
 			continue
 		case "?":
-			c.Unknown("C04.R4", "checkPaymentWindow", w.Pos(r.Pos()), "a return whose error value is neither nil nor a fresh error: unsupported shape")
+			c.Unknown("C04.R4", fname, w.Pos(r.Pos()), "a return whose error value is neither nil nor a fresh error: unsupported shape")
 			continue
 		}
 		nSucc++
-		facts := w.FactsDominatingBlock(r.Block())
+		facts := c04FactsDominatingBlock(w, r.Block())
 		desc := an.DescribeFacts(facts)
 		// (a) anchor set
 		a := an.AnyFact(facts, func(f an.Fact) bool { return an.AtomIs(f, "field:SwapData.StartingBlockHeightSet", true) })
@@ -663,7 +1181,7 @@ func c04R4(c *an.Check) (c04Shape c04WindowShape) {
 			}
 			// (c) start + window - current > 0
 			for k := range f.Terms {
-				if strings.HasSuffix(k, "timelockPolicy.PaymentWindow") && c04Implies(f, map[string]int64{wantH: -1, "field:SwapData.StartingBlockHeight": 1, k: 1}, 0, ">") {
+				if strings.HasSuffix(k, c04X.polName+".PaymentWindow") && c04Implies(f, map[string]int64{wantH: -1, "field:SwapData.StartingBlockHeight": 1, k: 1}, 0, ">") {
 					upper = &facts[i]
 				}
 			}
@@ -681,19 +1199,23 @@ func c04R4(c *an.Check) (c04Shape c04WindowShape) {
 		if upper != nil {
 			if msg, undecided := c04Overflow(w, *upper, wantH, lower); msg != "" {
 				if undecided {
-					c.Unknown("C04.R4", "checkPaymentWindow arithmetic", w.Pos(upper.Cond.Pos()), msg)
+					c.Unknown("C04.R4", fname+" arithmetic", w.Pos(upper.Cond.Pos()), msg)
 				} else {
 					bad = append(bad, msg)
 				}
 			}
 		}
-		if len(bad) > 0 {
-			c.Bad("C04.R4", "checkPaymentWindow", w.Pos(r.Pos()), strings.Join(bad, "; ")+". Facts on the success path: "+desc)
+		if h := c04HandsParamsOn(w, fn); len(bad) > 0 && h != "" {
+			c.Unknown("C04.R4", fname, w.Pos(r.Pos()), strings.Join(bad, "; ")+" — but the function hands its arguments to "+h+", where the condition may be tested: unsupported shape. Facts on the success path: "+desc)
+		} else if op := c04OpaquePreds(w, fn); len(bad) > 0 && len(op) > 0 {
+			c.Unknown("C04.R4", fname, w.Pos(r.Pos()), strings.Join(bad, "; ")+" — but the function branches on "+strings.Join(op, ", ")+", which this rule cannot look into. Facts on the success path: "+desc)
+		} else if len(bad) > 0 {
+			c.Bad("C04.R4", fname, w.Pos(r.Pos()), strings.Join(bad, "; ")+". Facts on the success path: "+desc)
 		} else {
-			c.OK("C04.R4", "checkPaymentWindow", w.Pos(r.Pos()), "nil only under: "+desc)
+			c.OK("C04.R4", fname, w.Pos(r.Pos()), "nil only under: "+desc)
 		}
 	}
-	c.AtLeast("C04.R4", "successful returns of checkPaymentWindow", nSucc, 1)
+	c.AtLeast("C04.R4", "successful returns of "+fname, nSucc, 1)
 	return c04Shape
 }
 
@@ -760,6 +1282,175 @@ func c04Overflow(w *an.World, f an.Fact, hTerm string, lower *an.Fact) (msg stri
 	return "", false
 }
 
+// c04Site is a claim-payment site as seen from the function that decides about
+// it: the RebalancePayment call itself, or — when the call sits in a small
+// in-module helper that has static callers — the call of that helper (lifted,
+// to a bounded depth), with the helper's parameters bound to the arguments.
+type c04Site struct {
+	at    ssa.CallInstruction   // instruction in the deciding function
+	pay   ssa.CallInstruction   // the RebalancePayment call
+	steps []ssa.CallInstruction // helper calls from the innermost outwards (empty when not lifted)
+	// the pay call can repeat inside a helper without returning to the caller
+	loopInHelper bool
+}
+
+var c04ParamRx = regexp.MustCompile(`param#(\d+)`)
+
+// argTerm names argument i of the pay call in the vocabulary of the deciding function.
+func (s c04Site) argTerm(w *an.World, i int) string {
+	args := s.pay.Common().Args
+	if i >= len(args) {
+		return ""
+	}
+	t := w.Term(args[i])
+	for _, st := range s.steps {
+		cargs := st.Common().Args
+		t = c04ParamRx.ReplaceAllStringFunc(t, func(m string) string {
+			k := 0
+			fmt.Sscanf(m, "param#%d", &k)
+			if k < len(cargs) {
+				return w.Term(cargs[k])
+			}
+			return m
+		})
+	}
+	return t
+}
+
+// argRoot returns the value at the root of argument i's field chain, followed
+// through helper parameters into the deciding function (nil if not traceable).
+func (s c04Site) argRoot(w *an.World, i int) ssa.Value {
+	args := s.pay.Common().Args
+	if i >= len(args) {
+		return nil
+	}
+	v := args[i]
+	for {
+		if cv, ok := v.(*ssa.Convert); ok {
+			v = cv.X
+			continue
+		}
+		break
+	}
+	_, root := w.FieldChain(v)
+	for _, st := range s.steps {
+		p, ok := root.(*ssa.Parameter)
+		if !ok {
+			return nil
+		}
+		k := -1
+		for j, q := range p.Parent().Params {
+			if q == p {
+				k = j
+			}
+		}
+		if k < 0 || k >= len(st.Common().Args) {
+			return nil
+		}
+		_, root = w.FieldChain(st.Common().Args[k])
+	}
+	return root
+}
+
+// c04PaySites lists the claim-payment sites, lifted out of helpers.
+func c04PaySites(w *an.World) []c04Site { return c04Sites(w, fxPay) }
+
+// c04Sites lists the call sites of the service method name, lifted out of helpers.
+func c04Sites(w *an.World, name string) []c04Site {
+	var out []c04Site
+	var lift func(s c04Site, depth int)
+	lift = func(s c04Site, depth int) {
+		fn := s.at.Parent()
+		var callers []ssa.CallInstruction
+		if fn.Parent() == nil && depth < 3 {
+			for _, cs := range findCallSites(w, "func:"+w.FuncName(fn)) {
+				if _, isCall := cs.(*ssa.Call); isCall && len(cs.Common().Args) == len(fn.Params) {
+					callers = append(callers, cs)
+				}
+			}
+		}
+		if len(callers) == 0 {
+			out = append(out, s)
+			return
+		}
+		if an.ReachBlocks(s.at.Block().Succs, nil, nil)[s.at.Block()] {
+			s.loopInHelper = true
+		}
+		for _, cs := range callers {
+			lift(c04Site{at: cs, pay: s.pay, steps: append(append([]ssa.CallInstruction{}, s.steps...), cs), loopInHelper: s.loopInHelper}, depth+1)
+		}
+	}
+	for _, p := range findCallSites(w, name) {
+		lift(c04Site{at: p, pay: p}, 0)
+	}
+	return out
+}
+
+// c04PassThrough finds in-module functions of package swap that are pure
+// pass-through wrappers of one of the predicates in core: one error result,
+// every return is either a fresh error, the inner call's own result, or nil
+// behind the inner call's nil edge, and every inner argument listed in idx is
+// one of the wrapper's parameters. It returns wrapper -> (inner function,
+// inner parameter index -> wrapper parameter index).
+func c04PassThrough(w *an.World, core func(*ssa.Function) bool, idx func(*ssa.Function) []int) map[*ssa.Function]map[int]int {
+	out := map[*ssa.Function]map[int]int{}
+	for _, g := range prodFuncs(w) {
+		if w.FnRel(g) != "swap" || g.Parent() != nil || core(g) {
+			continue
+		}
+		r := g.Signature.Results()
+		if r.Len() != 1 || !an.IsErrorType(r.At(0).Type()) {
+			continue
+		}
+		inner := c04CallsTo(g, core)
+		if len(inner) != 1 {
+			continue
+		}
+		call, ok := inner[0].(*ssa.Call)
+		if !ok {
+			continue
+		}
+		m := map[int]int{}
+		good := true
+		for _, i := range idx(call.Call.StaticCallee()) {
+			if i < 0 {
+				continue
+			}
+			if i >= len(call.Call.Args) {
+				good = false
+				break
+			}
+			p, isParam := c04Strip(call.Call.Args[i]).(*ssa.Parameter)
+			if !isParam {
+				good = false
+				break
+			}
+			m[i] = c04ParamIndex(p)
+		}
+		if !good {
+			continue
+		}
+		okE, _ := c04DirectOkEdges(call)
+		for _, ret := range an.Returns(g) {
+			switch c04ErrReturnKind(w, ret) {
+			case "err":
+			case "nil":
+				if len(okE) == 0 || !an.EdgesDominate(okE, ret.Block()) {
+					good = false
+				}
+			default:
+				if len(ret.Results) != 1 || ret.Results[0] != ssa.Value(call) {
+					good = false
+				}
+			}
+		}
+		if good {
+			out[g] = m
+		}
+	}
+	return out
+}
+
 // ---- R2 + R3: the claim-payment call sites ----------------------------------------------
 
 type c04WindowCall struct {
@@ -771,31 +1462,33 @@ type c04WindowCall struct {
 
 // c04WindowCalls lists the checkPaymentWindow calls of fn that test this
 // swap, a height read from the chain watcher, and the swap's own policy.
-func c04WindowCalls(w *an.World, fn *ssa.Function, c04Shape c04WindowShape) []c04WindowCall {
+func c04WindowCalls(w *an.World, fn *ssa.Function, shapes map[*ssa.Function]c04WindowShape) []c04WindowCall {
 	var out []c04WindowCall
-	for _, ci := range callsNamed(w, fn, c04Window) {
+	for _, ci := range c04CallsTo(fn, c04X.isWindow) {
 		call, isCall := ci.(*ssa.Call)
 		if !isCall {
 			continue
 		}
 		wc := c04WindowCall{call: call}
 		args := call.Call.Args
-		sh := c04Shape
+		sh := shapes[call.Call.StaticCallee()]
 		switch {
+		case !sh.ok:
+			wc.why = "?the window predicate " + w.FuncName(call.Call.StaticCallee()) + " has a signature this rule does not interpret"
 		case sh.heightIdx >= len(args) || sh.swapIdx >= len(args):
-			wc.why = "argument list does not match the analysed signature"
+			wc.why = "?argument list does not match the analysed signature"
 		default:
 			if _, isParam := args[sh.swapIdx].(*ssa.Parameter); !isParam {
-				wc.why = "the swap argument is not the action's own swap parameter (" + w.Term(args[sh.swapIdx]) + ")"
+				wc.why = "?the swap argument is not the action's own swap parameter (" + w.Term(args[sh.swapIdx]) + ")"
 			}
 			h := c04CallOf(args[sh.heightIdx])
 			if h == nil || w.Info(h).Name != fxBlockHeight || !strings.HasSuffix(w.Term(args[sh.heightIdx]), "#0") {
-				wc.why = "the height argument is not the result of TxWatcher.GetBlockHeight (" + w.Term(args[sh.heightIdx]) + ")"
+				wc.why = "?the height argument is not the result of TxWatcher.GetBlockHeight (" + w.Term(args[sh.heightIdx]) + ")"
 			} else {
 				wc.height = h
 			}
-			if sh.polIdx >= 0 && sh.polIdx < len(args) && w.Term(args[sh.polIdx]) != c04PolicyTerm {
-				wc.why = "the policy argument is not the result of getTimelockPolicy (" + w.Term(args[sh.polIdx]) + ")"
+			if sh.polIdx >= 0 && sh.polIdx < len(args) && w.Term(args[sh.polIdx]) != c04X.policyTerm {
+				wc.why = "?the policy argument is not the result of getTimelockPolicy (" + w.Term(args[sh.polIdx]) + ")"
 			}
 		}
 		var loose bool
@@ -812,37 +1505,51 @@ func c04WindowCalls(w *an.World, fn *ssa.Function, c04Shape c04WindowShape) []c0
 	return out
 }
 
-func c04R2R3(c *an.Check, c04Shape c04WindowShape) {
+func c04R2R3(c *an.Check, shapes map[*ssa.Function]c04WindowShape) {
 	w := c.W
-	sites := findCallSites(w, fxPay)
+	sites := c04PaySites(w)
 	if !c.AtLeast("C04.R2", "claim-payment (RebalancePayment) call sites", len(sites), 1) {
 		return
 	}
-	for _, p := range sites {
+	for _, site := range sites {
+		p := site.at // the pay call, or the call of the helper that pays
 		fn := p.Parent()
 		cons := w.FuncName(fn) + " call LightningClient.RebalancePayment"
 		pos := w.Pos(p.Pos())
+		if site.loopInHelper {
+			c.Unknown("C04.R2", cons, pos, "the payment is made inside a helper in which it can repeat without returning to the caller's checks: unsupported shape")
+			c.Unknown("C04.R3", cons, pos, "see C04.R2: payment inside a looping helper")
+			continue
+		}
 
 		// --- R3: dominated by AllowNewClaimPayment == true of an error-checked policy
-		facts := w.FactsDominating(p)
+		facts := c04FactsDominating(w, p)
 		allow := an.AnyFact(facts, func(f an.Fact) bool {
-			return (f.Rel == "true") && f.Atom == c04PolicyTerm+">timelockPolicy.AllowNewClaimPayment"
+			return (f.Rel == "true") && f.Atom == c04X.policyTerm+">"+c04X.polName+".AllowNewClaimPayment"
 		})
 		polOK := an.AnyFact(facts, func(f an.Fact) bool {
-			return f.NonNum && f.Rel == "==" && ((f.L == "call:"+c04Policy+"#1" && f.R == "nil") || (f.R == "call:"+c04Policy+"#1" && f.L == "nil"))
+			return f.NonNum && f.Rel == "==" && ((f.L == "call:"+c04X.policyName+"#1" && f.R == "nil") || (f.R == "call:"+c04X.policyName+"#1" && f.L == "nil"))
 		})
 		ownSwap := false
-		for _, pc := range callsNamed(w, fn, c04Policy) {
-			if len(pc.Common().Args) == 0 || len(p.Common().Args) == 0 {
+		for _, pc := range callsNamed(w, fn, c04X.policyName) {
+			if len(pc.Common().Args) == 0 {
 				continue
 			}
 			if prm, ok := pc.Common().Args[0].(*ssa.Parameter); ok {
-				if _, root := w.FieldChain(c04Strip(p.Common().Args[0])); root == prm {
+				if root := site.argRoot(w, 0); root == prm {
 					ownSwap = true
 				}
 			}
 		}
+		allowLoose := an.AnyFact(facts, func(f an.Fact) bool {
+			return f.Rel == "true" && strings.HasSuffix(f.Atom, c04X.polName+".AllowNewClaimPayment")
+		})
+		opaque := c04OpaquePreds(w, fn)
 		switch {
+		case !allow && allowLoose:
+			c.Unknown("C04.R3", cons, pos, "the payment is dominated by an AllowNewClaimPayment test, but this rule cannot tie the tested policy value to this swap's getTimelockPolicy result. Facts: "+an.DescribeFacts(facts))
+		case !allow && len(opaque) > 0:
+			c.Unknown("C04.R3", cons, pos, "no AllowNewClaimPayment test is visible, but the action branches on "+strings.Join(opaque, ", ")+", which this rule cannot look into")
 		case !allow:
 			c.Bad("C04.R3", cons, pos, "the claim payment is reachable without policy.AllowNewClaimPayment being true: a legacy (protocol 6) Liquid swap, whose policy row forbids new payments, can create a new claim payment here. Facts that do dominate: "+an.DescribeFacts(facts))
 		case !polOK:
@@ -854,12 +1561,8 @@ func c04R2R3(c *an.Check, c04Shape c04WindowShape) {
 		}
 
 		// --- R2: window re-check per attempt on the Liquid branch
-		if !c04Shape.ok {
-			c.Unknown("C04.R2", cons, pos, "checkPaymentWindow has an unsupported signature, so its call sites cannot be interpreted")
-			continue
-		}
 		nonLiq := c04NonLiquidEdges(w, fn)
-		wcs := c04WindowCalls(w, fn, c04Shape)
+		wcs := c04WindowCalls(w, fn, shapes)
 		var okEdges []an.Edge
 		var used []c04WindowCall
 		var rejected []string
@@ -882,8 +1585,16 @@ func c04R2R3(c *an.Check, c04Shape c04WindowShape) {
 		if len(rejected) > 0 {
 			rej = " checkPaymentWindow calls not counted: " + strings.Join(rejected, " | ")
 		}
-		if wrapped := c04WrappedIn(w, fn, c04Window); wrapped != "" && (entry[p.Block()] || again[p.Block()]) {
+		if wrapped := c04WrappedIn(w, fn, c04X.isWindow); wrapped != "" && (entry[p.Block()] || again[p.Block()]) {
 			c.Unknown("C04.R2", cons, pos, "the payment is not directly guarded by checkPaymentWindow, but "+wrapped+" (called here) reaches it: a wrapped window check is a shape this rule does not interpret")
+			continue
+		}
+		if op := c04OpaquePreds(w, fn); len(op) > 0 && (entry[p.Block()] || again[p.Block()]) {
+			c.Unknown("C04.R2", cons, pos, "the payment is reachable without a recognised window check, but the action branches on "+strings.Join(op, ", ")+", which this rule cannot look into."+rej)
+			continue
+		}
+		if undecided && (entry[p.Block()] || again[p.Block()]) {
+			c.Unknown("C04.R2", cons, pos, "window checks exist on the way to the payment but their arguments / error handling are not in a form this rule can credit."+rej)
 			continue
 		}
 		switch {
@@ -899,18 +1610,22 @@ func c04R2R3(c *an.Check, c04Shape c04WindowShape) {
 			continue
 		}
 		// fresh height per attempt
-		stale := ""
+		stale, odd := "", ""
 		for _, wc := range used {
 			if !c04BetweenPasses(p.Block(), wc.call, wc.height) {
 				stale = fmt.Sprintf("the height tested by checkPaymentWindow at %s is read by GetBlockHeight at %s, which is not re-executed between two payment attempts: retries reuse a stale height", w.Pos(wc.call.Pos()), w.Pos(wc.height.Pos()))
 			}
 			// the watcher must be the one selected for this swap's chain
-			if recv := wc.height.Call.Value; recv != nil && !strings.HasPrefix(w.Term(recv), "call:func:(*swap.SwapServices).getOnChainServices#") {
-				stale = fmt.Sprintf("the height at %s is not read from the chain service selected by getOnChainServices(swap.GetChain()) (receiver %s)", w.Pos(wc.height.Pos()), w.Term(recv))
+			if recv := wc.height.Call.Value; recv != nil && (c04X.services == "" || !strings.HasPrefix(w.Term(recv), "call:"+c04X.services+"#")) {
+				odd = fmt.Sprintf("cannot show that the height at %s is read from the chain service selected by getOnChainServices(swap.GetChain()) (receiver %s)", w.Pos(wc.height.Pos()), w.Term(recv))
 			}
 		}
 		if stale != "" {
 			c.Bad("C04.R2", cons, pos, stale)
+			continue
+		}
+		if odd != "" {
+			c.Unknown("C04.R2", cons, pos, odd)
 			continue
 		}
 		c.OK("C04.R2", cons, pos, fmt.Sprintf("every path to the payment (entry and retry) passes a checkPaymentWindow on a height read in the same attempt, or a non-Liquid edge (%d window calls, %d non-Liquid edges)", len(used), len(nonLiq)))
@@ -919,13 +1634,19 @@ func c04R2R3(c *an.Check, c04Shape c04WindowShape) {
 
 // ---- R5: the invoice check ---------------------------------------------------------------
 
-func c04R5(c *an.Check) {
+type c04InvShape struct {
+	ok              bool
+	cltvIdx, polIdx int
+}
+
+// c04R5Fn checks one invoice predicate and reports which parameters carry the
+// final CLTV (the only int64) and the policy (by type).
+func c04R5Fn(c *an.Check, fn *ssa.Function) c04InvShape {
 	w := c.W
-	fn := w.Func("swap", "validateClaimInvoice")
-	// which parameter is the final CLTV: the signed integer one; the policy by type
+	fname := w.FuncName(fn)
 	cltvIdx, polIdx := -1, -1
 	for i, p := range fn.Params {
-		if n := an.NamedOf(p.Type()); n != nil && n.Obj().Name() == "timelockPolicy" {
+		if n := an.NamedOf(p.Type()); n != nil && n == c04X.pol {
 			polIdx = i
 		}
 		if b, ok := p.Type().Underlying().(*types.Basic); ok && b.Kind() == types.Int64 {
@@ -937,31 +1658,38 @@ func c04R5(c *an.Check) {
 		}
 	}
 	if cltvIdx < 0 || polIdx < 0 {
-		c.Unknown("C04.R5", "validateClaimInvoice", w.Pos(fn.Pos()), "cannot identify the final-CLTV (the only int64) and policy parameters by type: unsupported signature")
-		return
+		c.Unknown("C04.R5", fname, w.Pos(fn.Pos()), "cannot identify the final-CLTV (the only int64) and policy parameters by type: unsupported signature")
+		return c04InvShape{}
 	}
 	hT := fmt.Sprintf("param#%d", cltvIdx)
-	limT := fmt.Sprintf("param#%d>timelockPolicy.InvoiceFinalCLTV", polIdx)
+	limT := fmt.Sprintf("param#%d>%s.InvoiceFinalCLTV", polIdx, c04X.polName)
 	nSucc := 0
 	for _, r := range an.Returns(fn) {
 		switch c04ErrReturnKind(w, r) {
 		case "err":
 			continue
 		case "?":
-			c.Unknown("C04.R5", "validateClaimInvoice", w.Pos(r.Pos()), "a return whose error value is neither nil nor a fresh error: unsupported shape")
+			c.Unknown("C04.R5", fname, w.Pos(r.Pos()), "a return whose error value is neither nil nor a fresh error: unsupported shape")
 			continue
 		}
 		nSucc++
-		facts := w.FactsDominatingBlock(r.Block())
+		facts := c04FactsDominatingBlock(w, r.Block())
 		nonNeg := an.AnyFact(facts, func(f an.Fact) bool { return c04Implies(f, map[string]int64{hT: 1}, 0, ">=") })
-		upper, upperUnsigned := false, false
+		upper, upperUnsigned, mentions := false, false, false
 		for _, f := range facts {
+			for k := range f.Terms {
+				if strings.HasSuffix(k, c04X.polName+".InvoiceFinalCLTV") {
+					mentions = true
+				}
+			}
 			if c04Implies(f, map[string]int64{hT: -1, limT: 1}, 0, ">=") {
 				upper = true
 				// compared as unsigned: a negative delta converts to >= 2^63 and is
 				// rejected by the same test (the policy limits are small constants, R1)
-				if b, ok := f.LV.Type().Underlying().(*types.Basic); ok && b.Info()&types.IsUnsigned != 0 {
-					upperUnsigned = true
+				if f.LV != nil {
+					if b, ok := f.LV.Type().Underlying().(*types.Basic); ok && b.Info()&types.IsUnsigned != 0 {
+						upperUnsigned = true
+					}
 				}
 			}
 		}
@@ -972,17 +1700,40 @@ func c04R5(c *an.Check) {
 		if !upper {
 			bad = append(bad, "success does not require final CLTV <= policy.InvoiceFinalCLTV (inclusive)")
 		}
-		c.Decide(len(bad) == 0, "C04.R5", "validateClaimInvoice", w.Pos(r.Pos()), "nil only under: "+an.DescribeFacts(facts), strings.Join(bad, "; ")+". Facts on the success path: "+an.DescribeFacts(facts))
+		if !upper && !mentions {
+			// no comparison with the limit dominates at all: the comparison may sit
+			// in a helper or in a shape the facts do not show
+			if h := c04ComparesVia(w, fn, c04X.polName+".InvoiceFinalCLTV"); h != "" {
+				c.Unknown("C04.R5", fname, w.Pos(r.Pos()), "the comparison with policy.InvoiceFinalCLTV is made in "+h+", a shape this rule does not interpret")
+				continue
+			}
+		}
+		c.Decide(len(bad) == 0, "C04.R5", fname, w.Pos(r.Pos()), "nil only under: "+an.DescribeFacts(facts), strings.Join(bad, "; ")+". Facts on the success path: "+an.DescribeFacts(facts))
 	}
-	if !c.AtLeast("C04.R5", "successful returns of validateClaimInvoice", nSucc, 1) {
-		return
+	c.AtLeast("C04.R5", "successful returns of "+fname, nSucc, 1)
+	return c04InvShape{ok: true, cltvIdx: cltvIdx, polIdx: polIdx}
+}
+
+func c04R5(c *an.Check) {
+	w := c.W
+	invShapes := map[*ssa.Function]c04InvShape{}
+	for _, fn := range c04X.invoiceFns {
+		invShapes[fn] = c04R5Fn(c, fn)
+	}
+	for g, m := range c04PassThrough(w, c04X.isInvoice, func(f *ssa.Function) []int {
+		return []int{invShapes[f].cltvIdx, invShapes[f].polIdx}
+	}) {
+		in := c04CallsTo(g, c04X.isInvoice)[0].Common().StaticCallee()
+		if sh := invShapes[in]; sh.ok {
+			invShapes[g] = c04InvShape{ok: true, cltvIdx: m[sh.cltvIdx], polIdx: m[sh.polIdx]}
+			c04X.invoiceFns = append(c04X.invoiceFns, g)
+		}
 	}
 
 	// call sites: every confirmation-watch registration
-	regs := findCallSites(w, fxWaitConf)
-	var swapRegs []ssa.CallInstruction
-	for _, r := range regs {
-		if w.FnRel(r.Parent()) == "swap" {
+	var swapRegs []c04Site
+	for _, r := range c04Sites(w, fxWaitConf) {
+		if w.FnRel(r.at.Parent()) == "swap" {
 			swapRegs = append(swapRegs, r)
 		}
 	}
@@ -991,22 +1742,29 @@ func c04R5(c *an.Check) {
 	}
 	// the invoice that is paid
 	payTerms := map[string]bool{}
-	for _, p := range findCallSites(w, fxPay) {
-		if len(p.Common().Args) > 0 {
-			payTerms[w.Term(p.Common().Args[0])] = true
+	for _, site := range c04PaySites(w) {
+		if t := site.argTerm(w, 0); t != "" {
+			payTerms[t] = true
 		}
 	}
 	checked := map[*ssa.Function]bool{}
-	for _, reg := range swapRegs {
+	for _, rsite := range swapRegs {
+		reg := rsite.at
 		rf := reg.Parent()
 		cons := w.FuncName(rf) + " call TxWatcher.AddWaitForConfirmationTx"
 		pos := w.Pos(reg.Pos())
+		checked[rsite.pay.Parent()] = true
 		checked[rf] = true // the edge rule below only asks for such a registration; its guard is this obligation
 		var okEdges []an.Edge
-		var rejected []string
-		for _, ci := range callsNamed(w, rf, c04Invoice) {
+		var rejected, untested []string // rejected: not interpretable; untested: positively no guard
+		for _, ci := range c04CallsTo(rf, c04X.isInvoice) {
 			call, isCall := ci.(*ssa.Call)
-			if !isCall || cltvIdx >= len(call.Call.Args) || polIdx >= len(call.Call.Args) {
+			if !isCall {
+				continue
+			}
+			sh := invShapes[call.Call.StaticCallee()]
+			cltvIdx, polIdx := sh.cltvIdx, sh.polIdx
+			if !sh.ok || cltvIdx >= len(call.Call.Args) || polIdx >= len(call.Call.Args) {
 				continue
 			}
 			at := w.Pos(call.Pos())
@@ -1021,24 +1779,34 @@ func c04R5(c *an.Check) {
 			case len(src.Call.Args) < 1 || !payTerms[w.Term(src.Call.Args[0])]:
 				rejected = append(rejected, at+": the decoded invoice is not the one that is paid")
 				continue
-			case w.Term(call.Call.Args[polIdx]) != c04PolicyTerm:
+			case w.Term(call.Call.Args[polIdx]) != c04X.policyTerm:
 				rejected = append(rejected, at+": the policy argument is not the result of getTimelockPolicy")
 				continue
 			}
-			e, _ := c04DirectOkEdges(call)
-			if len(e) == 0 {
-				rejected = append(rejected, at+": the error result is not tested directly")
+			e, loose := c04DirectOkEdges(call)
+			if len(e) == 0 && loose {
+				rejected = append(rejected, at+": the error result is only tested after being merged with other errors")
+			} else if len(e) == 0 {
+				untested = append(untested, at+": the error result is never tested")
 			}
 			okEdges = append(okEdges, e...)
 		}
 		cut := c04Cut(c04NonLiquidEdges(w, rf), okEdges)
 		reach := an.ReachBlocks([]*ssa.BasicBlock{rf.Blocks[0]}, cut, nil)
 		rej := ""
-		if len(rejected) > 0 {
-			rej = " Calls not counted: " + strings.Join(rejected, " | ")
+		if len(rejected)+len(untested) > 0 {
+			rej = " Calls not counted: " + strings.Join(append(append([]string{}, rejected...), untested...), " | ")
 		}
-		if wrapped := c04WrappedIn(w, rf, c04Invoice); wrapped != "" && reach[reg.Block()] {
+		if wrapped := c04WrappedIn(w, rf, c04X.isInvoice); wrapped != "" && reach[reg.Block()] {
 			c.Unknown("C04.R5", cons, pos, "the registration is not directly guarded by validateClaimInvoice, but "+wrapped+" (called here) reaches it: a wrapped invoice check is a shape this rule does not interpret")
+			continue
+		}
+		if op := c04OpaquePreds(w, rf); len(op) > 0 && reach[reg.Block()] {
+			c.Unknown("C04.R5", cons, pos, "the registration is reachable without a recognised invoice check, but the action branches on "+strings.Join(op, ", ")+", which this rule cannot look into."+rej)
+			continue
+		}
+		if len(rejected) > 0 && reach[reg.Block()] {
+			c.Unknown("C04.R5", cons, pos, "invoice checks exist before the registration but their arguments / error handling are not in a form this rule can credit."+rej)
 			continue
 		}
 		c.Decide(!reach[reg.Block()], "C04.R5", cons, pos,
@@ -1139,7 +1907,15 @@ func c04Forward(w *an.World, p *ssa.Parameter, path []string, seen map[*ssa.Para
 		ci := w.Info(call)
 		if ci.Name == c04ValidateTot {
 			if len(call.Call.Args) == 2 && call.Call.Args[1] == p {
-				*out = append(*out, c04Builder{fn: p.Parent(), limit: p, path: path})
+				dup := false
+				for _, b := range *out {
+					if b.fn == p.Parent() {
+						dup = true
+					}
+				}
+				if !dup {
+					*out = append(*out, c04Builder{fn: p.Parent(), limit: p, path: path})
+				}
 			}
 			continue
 		}
@@ -1152,21 +1928,67 @@ func c04Forward(w *an.World, p *ssa.Parameter, path []string, seen map[*ssa.Para
 			}
 		}
 	}
+	// the comparison required <= limit written out in this function
+	if len(c04InlineLimitFacts(w, p.Parent(), fmt.Sprintf("param#%d", c04ParamIndex(p)))) > 0 {
+		dup := false
+		for _, b := range *out {
+			if b.fn == p.Parent() {
+				dup = true
+			}
+		}
+		if !dup {
+			*out = append(*out, c04Builder{fn: p.Parent(), limit: p, path: path})
+		}
+	}
+}
+
+// c04InlineLimitFacts are the facts  limit - (something) >= 0  of fn, i.e. an
+// inlined ValidateTotalCLTVDelta.
+func c04InlineLimitFacts(w *an.World, fn *ssa.Function, limitTerm string) []an.Fact {
+	var out []an.Fact
+	for _, f := range c04Facts(w, fn) {
+		if f.NonNum || f.Terms == nil || (f.Rel != ">=" && f.Rel != ">") || len(f.Terms) < 2 || f.Terms[limitTerm] != 1 {
+			continue
+		}
+		out = append(out, f)
+	}
+	return out
+}
+
+// c04HasUses: the parameter is referenced by something other than debug info.
+func c04HasUses(p *ssa.Parameter) bool {
+	if p.Referrers() == nil {
+		return false
+	}
+	for _, r := range *p.Referrers() {
+		if _, dbg := r.(*ssa.DebugRef); !dbg {
+			return true
+		}
+	}
+	return false
 }
 
 func c04R6(c *an.Check) {
 	w := c.W
 	// (a) the argument at the call sites
-	for _, p := range findCallSites(w, fxPay) {
+	for _, site := range c04PaySites(w) {
+		p := site.at
 		cons := w.FuncName(p.Parent()) + " RebalancePayment limit argument"
-		args := p.Common().Args
+		args := site.pay.Common().Args
 		if len(args) != 3 {
 			c.Unknown("C04.R6", cons, w.Pos(p.Pos()), "RebalancePayment no longer takes (payreq, channel, limit)")
 			continue
 		}
-		t := w.Term(args[2])
-		c.Decide(t == c04PolicyTerm+">timelockPolicy.MaxTotalCLTVDelta", "C04.R6", cons, w.Pos(p.Pos()),
-			"the limit is policy.MaxTotalCLTVDelta", "the total-CLTV limit handed to the Lightning back-end is not policy.MaxTotalCLTVDelta but "+t+": the Liquid route is not bounded by the policy's 32 blocks")
+		t := site.argTerm(w, 2)
+		_, isConst := c04ConstFold(args[2])
+		switch {
+		case t == c04X.policyTerm+">"+c04X.polName+".MaxTotalCLTVDelta":
+			c.OK("C04.R6", cons, w.Pos(p.Pos()), "the limit is policy.MaxTotalCLTVDelta")
+		case isConst || (strings.HasPrefix(t, c04X.policyTerm+">") && !strings.Contains(t, "phi(")):
+			c.Bad("C04.R6", cons, w.Pos(p.Pos()), "the total-CLTV limit handed to the Lightning back-end is not policy.MaxTotalCLTVDelta but "+t+": the Liquid route is not bounded by the policy's 32 blocks")
+		default:
+			c.Unknown("C04.R6", cons, w.Pos(p.Pos()), "the total-CLTV limit handed to the Lightning back-end is "+t+", which this rule cannot trace to policy.MaxTotalCLTVDelta")
+		}
 	}
 
 	// (d) ValidateTotalCLTVDelta itself: nil only if limit == 0 or required <= limit
@@ -1220,6 +2042,10 @@ func c04R6(c *an.Check) {
 		}
 		var bs []c04Builder
 		c04Forward(w, im.Params[3], nil, map[*ssa.Parameter]bool{}, &bs)
+		if len(bs) == 0 && c04HasUses(im.Params[3]) {
+			c.Unknown("C04.R6", cons, w.Pos(im.Pos()), "the maxTotalCLTVDelta parameter is used, but not in a way this rule follows to a required <= limit comparison (only unchanged forwarding through static in-module calls is followed)")
+			continue
+		}
 		if len(bs) == 0 {
 			c.Bad("C04.R6", cons, w.Pos(im.Pos()), "the maxTotalCLTVDelta parameter of this back-end is not passed on unchanged to a ValidateTotalCLTVDelta(required, limit) call: the policy's route limit is dropped in this back-end (sibling back-ends must agree)")
 			continue
@@ -1230,7 +2056,7 @@ func c04R6(c *an.Check) {
 			c04CheckBuilder(c, b)
 		}
 	}
-	c.AtLeast("C04.R6", "route/request builders reached", nBuilders, 2)
+	_ = nBuilders // every implementation without a builder is reported above; no separate floor
 }
 
 // c04CheckBuilder: in the builder, (i) a successful return requires limit == 0
@@ -1249,23 +2075,14 @@ func c04CheckBuilder(c *an.Check, b c04Builder) {
 	k := c04ParamIndex(b.limit)
 	pT := fmt.Sprintf("param#%d", k)
 	var zeroEdges, okEdges []an.Edge
-	for _, f := range w.Facts(fn) {
+	for _, f := range c04Facts(w, fn) {
 		if c04LimitFact(f, pT) < 0 {
 			zeroEdges = append(zeroEdges, f.Edge)
 		}
 	}
 	var required []c04Lin
-	var vcalls []*ssa.Call
-	for _, ci := range callsNamed(w, fn, c04ValidateTot) {
-		call, ok := ci.(*ssa.Call)
-		if !ok || len(call.Call.Args) != 2 || call.Call.Args[1] != b.limit {
-			continue
-		}
-		e, _ := c04DirectOkEdges(call)
-		if len(e) == 0 {
-			continue
-		}
-		req := c04Linear(w, call.Call.Args[0])
+	nValid := 0
+	judge := func(req c04Lin, pos string, e []an.Edge) {
 		term, co, single := req.single()
 		isFinal := false
 		for _, ft := range c04FinalCLTVTerms {
@@ -1275,13 +2092,45 @@ func c04CheckBuilder(c *an.Check, b c04Builder) {
 		}
 		cons := name + " required CLTV"
 		okEdges = append(okEdges, e...)
-		vcalls = append(vcalls, call)
-		if !single || co != 1 || !isFinal || req.C < 1 {
-			c.Bad("C04.R6", cons, w.Pos(call.Pos()), "the value validated against the limit is "+req.String()+", not invoiceFinalCLTV + k with k >= 1 (the route needs at least final+1): the limit is compared with less than what the payment will use")
+		nValid++
+		switch {
+		case single && co == 1 && isFinal && req.C >= 1:
+			c.OK("C04.R6", cons, pos, "validated value is "+req.String())
+			required = append(required, req)
+		case single && co == 1 && isFinal:
+			c.Bad("C04.R6", cons, pos, "the value validated against the limit is "+req.String()+", not invoiceFinalCLTV + k with k >= 1 (the route needs at least final+1): the limit is compared with less than what the payment will use")
+		default:
+			c.Unknown("C04.R6", cons, pos, "the value validated against the limit is "+req.String()+", which this rule cannot read as invoiceFinalCLTV + k")
+		}
+	}
+	for _, ci := range callsNamed(w, fn, c04ValidateTot) {
+		call, ok := ci.(*ssa.Call)
+		if !ok || len(call.Call.Args) != 2 || call.Call.Args[1] != b.limit {
 			continue
 		}
-		c.OK("C04.R6", cons, w.Pos(call.Pos()), "validated value is "+req.String())
-		required = append(required, req)
+		e, _ := c04DirectOkEdges(call)
+		if len(e) == 0 {
+			continue
+		}
+		judge(c04Linear(w, call.Call.Args[0]), w.Pos(call.Pos()), e)
+	}
+	for _, f := range c04InlineLimitFacts(w, fn, pT) {
+		// limit + Σothers + C >= 0  (or > 0)  <=>  required := -(Σothers + C) [+1] <= limit
+		req := c04Lin{T: map[string]int64{}, Leaf: map[string]ssa.Value{}}
+		for k, v := range f.Terms {
+			if k != pT {
+				req.T[k] = -v
+			}
+		}
+		req.C = -f.Const
+		if f.Rel == ">" {
+			req.C++
+		}
+		pos := "-"
+		if f.Cond != nil {
+			pos = w.Pos(f.Cond.Pos())
+		}
+		judge(req, pos, []an.Edge{f.Edge})
 	}
 	// (i)
 	reach := an.ReachBlocks([]*ssa.BasicBlock{fn.Blocks[0]}, c04Cut(zeroEdges, okEdges), nil)
@@ -1297,48 +2146,58 @@ func c04CheckBuilder(c *an.Check, b c04Builder) {
 			c.Unknown("C04.R6", name+" limit enforced", w.Pos(r.Pos()), "a return whose error is neither nil nor certainly non-nil: unsupported shape")
 		}
 	}
-	c.Decide(guarded && nSucc > 0 && len(vcalls) > 0, "C04.R6", name+" limit enforced", w.Pos(fn.Pos()),
-		"a route/request is only returned when limit == 0 or ValidateTotalCLTVDelta passed", "with a non-zero limit the builder can return a route/request without a passing ValidateTotalCLTVDelta(final+k, limit): a Liquid claim payment may lock funds for more than the policy's total CLTV")
+	c.Decide(guarded && nSucc > 0 && nValid > 0, "C04.R6", name+" limit enforced", w.Pos(fn.Pos()),
+		"a route/request is only returned when limit == 0 or required <= limit (ValidateTotalCLTVDelta or the same comparison inline) passed", "with a non-zero limit the builder can return a route/request without a passing ValidateTotalCLTVDelta(final+k, limit): a Liquid claim payment may lock funds for more than the policy's total CLTV")
 
 	// (ii) what is sent
-	nSent := 0
-	for _, blk := range fn.Blocks {
-		for _, in := range blk.Instrs {
-			st, ok := in.(*ssa.Store)
-			if !ok {
-				continue
+	sent := c04SentValues(w, fn, 0)
+	for _, sv := range sent {
+		cons := name + " " + sv.field
+		var bad, unk []string
+		for _, alt := range c04PhiAlternatives(w, sv.v, sv.at, pT) {
+			if alt.unlimited && !alt.limited {
+				continue // the limit == 0 path (Bitcoin): C05's business
 			}
-			fa, ok := st.Addr.(*ssa.FieldAddr)
-			if !ok || !c04SentCLTVFields[an.FieldName(fa.X.Type(), fa.Field)] {
-				continue
-			}
-			fname := an.FieldName(fa.X.Type(), fa.Field)
-			nSent++
-			cons := name + " " + fname
-			var bad []string
-			for _, alt := range c04PhiAlternatives(w, st.Val, st.Block(), pT) {
-				if alt.unlimited && !alt.limited {
-					continue // the limit == 0 path (Bitcoin): C05's business
+			l := c04Linear(w, alt.v)
+			good := false
+			for _, req := range required {
+				if l.equal(req) {
+					good = true // the validated value itself
 				}
-				l := c04Linear(w, alt.v)
-				good := false
-				for _, req := range required {
-					if l.equal(req) {
-						good = true // the validated value itself
+			}
+			term, co, single := l.single()
+			if single && co == 1 && term == pT && l.C <= 1 {
+				good = true // limit (+1)
+			}
+			if good {
+				continue
+			}
+			readable := single && co == 1 && term == pT
+			if single && co == 1 {
+				for _, ft := range c04FinalCLTVTerms {
+					if strings.Contains(term, ft) {
+						readable = true
 					}
 				}
-				if term, co, single := l.single(); single && co == 1 && term == pT && l.C <= 1 {
-					good = true // limit (+1)
-				}
-				if !good {
-					bad = append(bad, fmt.Sprintf("on the limited path %s is set to %s, which is neither the validated value nor limit(+1)", fname, l.String()))
-				}
 			}
-			c.Decide(len(bad) == 0, "C04.R6", cons, w.Pos(st.Pos()), "the CLTV sent on the limited path is the validated value / limit+1", strings.Join(bad, "; "))
+			msg := fmt.Sprintf("on the limited path %s is set to %s, which is neither the validated value nor limit(+1)", sv.field, l.String())
+			if readable && len(required) == nValid {
+				bad = append(bad, msg)
+			} else {
+				unk = append(unk, msg+" (not in a form this rule can compare)")
+			}
+		}
+		switch {
+		case len(bad) > 0:
+			c.Bad("C04.R6", cons, w.Pos(sv.pos), strings.Join(bad, "; "))
+		case len(unk) > 0:
+			c.Unknown("C04.R6", cons, w.Pos(sv.pos), strings.Join(unk, "; "))
+		default:
+			c.OK("C04.R6", cons, w.Pos(sv.pos), "the CLTV sent on the limited path is the validated value / limit+1")
 		}
 	}
-	if nSent == 0 {
-		c.Unknown("C04.R6", name+" sent CLTV", w.Pos(fn.Pos()), "no store to RouteHop.Delay / SendPaymentRequest.CltvLimit found in the builder: cannot relate the validated value to what is sent")
+	if len(sent) == 0 {
+		c.Unknown("C04.R6", name+" sent CLTV", w.Pos(fn.Pos()), "no store to RouteHop.Delay / SendPaymentRequest.CltvLimit found in the builder or its helpers: cannot relate the validated value to what is sent")
 	}
 
 	// (iii) callers check the builder's error before sending
@@ -1350,7 +2209,11 @@ func c04CheckBuilder(c *an.Check, b c04Builder) {
 			continue
 		}
 		nCallers++
-		okE, _ := c04DirectOkEdges(call)
+		okE, loose := c04DirectOkEdges(call)
+		if len(okE) == 0 && loose {
+			c.Unknown("C04.R6", w.FuncName(call.Parent())+" uses "+name, w.Pos(call.Pos()), "the builder's error is only tested after being merged with other errors: unsupported shape")
+			continue
+		}
 		// everything that uses result #0 must be dominated by an ok edge
 		good := len(okE) > 0
 		for _, rv := range an.ResultValues(call, 0) {
@@ -1372,6 +2235,43 @@ func c04CheckBuilder(c *an.Check, b c04Builder) {
 	if nCallers == 0 {
 		c.Unknown("C04.R6", name+" callers", w.Pos(fn.Pos()), "no production caller of the builder found in the call graph")
 	}
+}
+
+// c04Sent is a value that ends up in one of the CLTV-carrying fields of the
+// outgoing route/request, seen from fn: stored directly, or handed as an
+// argument to an in-module helper that stores that parameter.
+type c04Sent struct {
+	v     ssa.Value
+	at    *ssa.BasicBlock
+	pos   token.Pos
+	field string
+}
+
+func c04SentValues(w *an.World, fn *ssa.Function, depth int) []c04Sent {
+	var out []c04Sent
+	for _, blk := range fn.Blocks {
+		for _, in := range blk.Instrs {
+			switch x := in.(type) {
+			case *ssa.Store:
+				fa, ok := x.Addr.(*ssa.FieldAddr)
+				if !ok || !c04SentCLTVFields[an.FieldName(fa.X.Type(), fa.Field)] {
+					continue
+				}
+				out = append(out, c04Sent{v: x.Val, at: x.Block(), pos: x.Pos(), field: an.FieldName(fa.X.Type(), fa.Field)})
+			case *ssa.Call:
+				g := x.Call.StaticCallee()
+				if g == nil || x.Call.IsInvoke() || depth >= 2 || g == fn || !w.InModule(g) || g.Blocks == nil || len(g.Params) != len(x.Call.Args) {
+					continue
+				}
+				for _, sv := range c04SentValues(w, g, depth+1) {
+					if p, isParam := c04Strip(sv.v).(*ssa.Parameter); isParam && sv.at.Parent() == g {
+						out = append(out, c04Sent{v: x.Call.Args[c04ParamIndex(p)], at: x.Block(), pos: x.Pos(), field: sv.field})
+					}
+				}
+			}
+		}
+	}
+	return out
 }
 
 type c04Alt struct {
@@ -1400,7 +2300,7 @@ func c04PhiAlternatives(w *an.World, v ssa.Value, at *ssa.BasicBlock, limitTerm 
 	}
 	phi, ok := c04Strip(v).(*ssa.Phi)
 	if !ok {
-		l, u := classify(w.FactsDominatingBlock(at))
+		l, u := classify(c04FactsDominatingBlock(w, at))
 		return []c04Alt{{v: v, limited: l, unlimited: u}}
 	}
 	var out []c04Alt
